@@ -55,17 +55,18 @@ func scenario(param string) vsched.Scenario {
 	sp := parse(param)
 	return func() (func(), func(*vsched.Exec) (string, string)) {
 		var (
-			env             *udpenv.Env
-			buildErr        error
-			notes           []string
-			tableAfterEvict = -2
-			socksAfterEvict = -2
-			secondEcho      string
-			stopped         bool
-			leak            vudp.Report
-			liveAfterStop   []string
-			targetGot       string
-			firstEcho       string
+			env               *udpenv.Env
+			buildErr          error
+			notes             []string
+			tableAfterEvict   = -2
+			socksAfterEvict   = -2
+			secondEcho        string
+			stopped           bool
+			leak              vudp.Report
+			liveAfterStop     []string
+			sessionsAfterStop int
+			targetGot         string
+			firstEcho         string
 		)
 		note := func(f string, a ...any) { notes = append(notes, fmt.Sprintf(f, a...)) }
 		body := func() {
@@ -192,6 +193,7 @@ func scenario(param string) vsched.Scenario {
 			stopped = true
 			vsched.SetClockLimit(0)
 			liveAfterStop = vsched.LiveThreadDescs()
+			sessionsAfterStop = env.OpenSessions
 			c.Close()
 			t.Close()
 			tg.Wait()
@@ -258,6 +260,9 @@ func scenario(param string) vsched.Scenario {
 			if len(leak.RelayLeaked) > 0 {
 				return obs, fmt.Sprintf("relay sockets still open after Stop: %v", leak.RelayLeaked)
 			}
+			if sessionsAfterStop != 0 {
+				return obs, fmt.Sprintf("%d outgoing client session(s) the relay opened were never closed (for a SOCKS5 client that is a TCP control connection and a goroutine left behind)", sessionsAfterStop)
+			}
 			return obs, ""
 		}
 		return body, check
@@ -304,7 +309,7 @@ func main() {
 		os.Exit(0)
 	}
 	c.Rule = "one case = one interleaving of {packet arrives, uplink packs/sends, downlink receives, NAT timer fires, Stop} on the real relay for a scenario {server protocol, batch mode, kind: idle eviction + restart, packet racing with the timeout, Stop with packets in flight, Stop during session initialisation, router rejection, failing sends (EPERM as environment deviation), two sessions}; distinct = distinct observation record"
-	c.Assumptions = []string{"real loopback sockets with scheduler-mediated readiness; NAT timeouts and Stop deadlines on the virtual clock", "promptness oracle: after Stop is called no timer later than 1 s may fire, so a Stop that depends on a NAT timeout shows as a deadlock", "send failures are injected only on sockets the relay created", "outgoing client: direct only; a SOCKS5 outgoing UDP client (whose session owns a TCP control connection that only Close releases) is outside the alphabet"}
+	c.Assumptions = []string{"real loopback sockets with scheduler-mediated readiness; NAT timeouts and Stop deadlines on the virtual clock", "promptness oracle: after Stop is called no timer later than 1 s may fire, so a Stop that depends on a NAT timeout shows as a deadlock", "send failures are injected only on sockets the relay created", "outgoing client: direct only, wrapped by a counter of client sessions opened and closed (a SOCKS5 outgoing client, whose session owns a TCP control connection, is not modelled; its Close obligation is checked through the counter)"}
 	c.SigOf = func(_, param, msg string) string {
 		sp := parse(param)
 		if i := strings.Index(msg, ": T"); i > 0 {
